@@ -2684,6 +2684,385 @@ let handle_fc c s fc =
        in
        ((Some r), r)
 
+(** val tx_after_fc : cfg -> layer -> (tx_report, layer * event list) sum **)
+
+let tx_after_fc c s =
+  let fc = s.last_fc in
+  let s0 =
+    set (fun l -> l.last_fc) (fun f ->
+      let o = fun r -> f r.last_fc in
+      (fun x -> { now = x.now; rx_state = x.rx_state; rx_buffer =
+      x.rx_buffer; rx_frame_length = x.rx_frame_length; last_seqnum =
+      x.last_seqnum; rx_block_counter = x.rx_block_counter; actual_rxdl =
+      x.actual_rxdl; pending_fc = x.pending_fc; pending_fc_status =
+      x.pending_fc_status; timer_rx_cf = x.timer_rx_cf; rx_queue =
+      x.rx_queue; tx_state = x.tx_state; tx_queue = x.tx_queue; active =
+      x.active; tx_standby = x.tx_standby; last_fc = (o x); remote_bs =
+      x.remote_bs; tx_block_counter = x.tx_block_counter; tx_seqnum =
+      x.tx_seqnum; wft_counter = x.wft_counter; tx_frame_length =
+      x.tx_frame_length; timer_rx_fc = x.timer_rx_fc; timer_tx_stmin =
+      x.timer_tx_stmin; lim_times = x.lim_times; lim_bits = x.lim_bits;
+      lim_total = x.lim_total; next_req_id = x.next_req_id })) (fun _ ->
+      None) s
+  in
+  let after_fc =
+    match fc with
+    | Some f -> handle_fc c s0 f
+    | None -> ((Some (s0, [])), (s0, []))
+  in
+  let (o, p) = after_fc in
+  (match o with
+   | Some _ ->
+     let (s1, evs1) = p in
+     if timer_timed_out s1.now s1.timer_rx_fc
+     then let (s', e) = stop_sending false s1 in
+          let evs2 = (EErr FlowControlTimeout) :: e in
+          (match s'.tx_state with
+           | TxIdle -> Coq_inr (s', (app evs1 evs2))
+           | _ ->
+             (match s'.active with
+              | Some r ->
+                if (&&) (r_is_depleted r)
+                     (match s'.tx_standby with
+                      | Some _ -> false
+                      | None -> true)
+                then let (s3, evs3) = stop_sending true s' in
+                     Coq_inr (s3, (app evs1 (app evs2 evs3)))
+                else Coq_inr (s', (app evs1 evs2))
+              | None ->
+                Coq_inl
+                  (mk_crash s' (app evs1 evs2) (Zpos (Coq_xI (Coq_xO
+                    Coq_xH))))))
+     else let evs2 = [] in
+          (match s1.tx_state with
+           | TxIdle -> Coq_inr (s1, (app evs1 evs2))
+           | _ ->
+             (match s1.active with
+              | Some r ->
+                if (&&) (r_is_depleted r)
+                     (match s1.tx_standby with
+                      | Some _ -> false
+                      | None -> true)
+                then let (s3, evs3) = stop_sending true s1 in
+                     Coq_inr (s3, (app evs1 (app evs2 evs3)))
+                else Coq_inr (s1, (app evs1 evs2))
+              | None ->
+                Coq_inl
+                  (mk_crash s1 (app evs1 evs2) (Zpos (Coq_xI (Coq_xO
+                    Coq_xH))))))
+   | None -> let (s1, evs) = p in Coq_inl (mk_tr s1 evs None false))
+
+(** val tx_finish :
+    params -> layer -> event list -> frame option -> bool -> tx_report **)
+
+let tx_finish p s' evs' out imm =
+  match out with
+  | Some m -> mk_tr (lim_inform p (zlen m.f_data) s') evs' out imm
+  | None -> mk_tr s' evs' None imm
+
+(** val tx_cf : cfg -> coq_Z -> layer -> event list -> tx_report **)
+
+let tx_cf c allowed s3 evs =
+  let p = c.c_p in
+  (match s3.remote_bs with
+   | Some rbs ->
+     (match s3.active with
+      | Some r ->
+        if timer_timed_out s3.now s3.timer_tx_stmin
+        then let data_length =
+               Z.sub (Z.sub p.p_tx_dl (Zpos Coq_xH)) (zlen (c_tx_prefix c))
+             in
+             let payload_length = Z.min data_length (r_remaining r) in
+             if Z.leb payload_length allowed
+             then let (o, r') = consume payload_length false r in
+                  (match o with
+                   | Some payload ->
+                     let s4 =
+                       set (fun l -> l.active) (fun f ->
+                         let o0 = fun r0 -> f r0.active in
+                         (fun x -> { now = x.now; rx_state = x.rx_state;
+                         rx_buffer = x.rx_buffer; rx_frame_length =
+                         x.rx_frame_length; last_seqnum = x.last_seqnum;
+                         rx_block_counter = x.rx_block_counter; actual_rxdl =
+                         x.actual_rxdl; pending_fc = x.pending_fc;
+                         pending_fc_status = x.pending_fc_status;
+                         timer_rx_cf = x.timer_rx_cf; rx_queue = x.rx_queue;
+                         tx_state = x.tx_state; tx_queue = x.tx_queue;
+                         active = (o0 x); tx_standby = x.tx_standby;
+                         last_fc = x.last_fc; remote_bs = x.remote_bs;
+                         tx_block_counter = x.tx_block_counter; tx_seqnum =
+                         x.tx_seqnum; wft_counter = x.wft_counter;
+                         tx_frame_length = x.tx_frame_length; timer_rx_fc =
+                         x.timer_rx_fc; timer_tx_stmin = x.timer_tx_stmin;
+                         lim_times = x.lim_times; lim_bits = x.lim_bits;
+                         lim_total = x.lim_total; next_req_id =
+                         x.next_req_id })) (fun _ -> Some r') s3
+                     in
+                     let emit =
+                       if Z.ltb Z0 (zlen payload)
+                       then (match make_tx_msg c (c_tx_id c Physical)
+                                     (app (c_tx_prefix c)
+                                       (app
+                                         ((Z.coq_lor (Zpos (Coq_xO (Coq_xO
+                                            (Coq_xO (Coq_xO (Coq_xO
+                                            Coq_xH)))))) s4.tx_seqnum) :: [])
+                                         payload)) with
+                             | Some m ->
+                               Some
+                                 ((set (fun l -> l.tx_block_counter)
+                                    (fun f ->
+                                    let z = fun r0 -> f r0.tx_block_counter in
+                                    (fun x -> { now = x.now; rx_state =
+                                    x.rx_state; rx_buffer = x.rx_buffer;
+                                    rx_frame_length = x.rx_frame_length;
+                                    last_seqnum = x.last_seqnum;
+                                    rx_block_counter = x.rx_block_counter;
+                                    actual_rxdl = x.actual_rxdl; pending_fc =
+                                    x.pending_fc; pending_fc_status =
+                                    x.pending_fc_status; timer_rx_cf =
+                                    x.timer_rx_cf; rx_queue = x.rx_queue;
+                                    tx_state = x.tx_state; tx_queue =
+                                    x.tx_queue; active = x.active;
+                                    tx_standby = x.tx_standby; last_fc =
+                                    x.last_fc; remote_bs = x.remote_bs;
+                                    tx_block_counter = (z x); tx_seqnum =
+                                    x.tx_seqnum; wft_counter = x.wft_counter;
+                                    tx_frame_length = x.tx_frame_length;
+                                    timer_rx_fc = x.timer_rx_fc;
+                                    timer_tx_stmin = x.timer_tx_stmin;
+                                    lim_times = x.lim_times; lim_bits =
+                                    x.lim_bits; lim_total = x.lim_total;
+                                    next_req_id = x.next_req_id })) (fun _ ->
+                                    Z.add s4.tx_block_counter (Zpos Coq_xH))
+                                    (set (fun l -> l.timer_tx_stmin)
+                                      (fun f ->
+                                      let t = fun r0 -> f r0.timer_tx_stmin in
+                                      (fun x -> { now = x.now; rx_state =
+                                      x.rx_state; rx_buffer = x.rx_buffer;
+                                      rx_frame_length = x.rx_frame_length;
+                                      last_seqnum = x.last_seqnum;
+                                      rx_block_counter = x.rx_block_counter;
+                                      actual_rxdl = x.actual_rxdl;
+                                      pending_fc = x.pending_fc;
+                                      pending_fc_status =
+                                      x.pending_fc_status; timer_rx_cf =
+                                      x.timer_rx_cf; rx_queue = x.rx_queue;
+                                      tx_state = x.tx_state; tx_queue =
+                                      x.tx_queue; active = x.active;
+                                      tx_standby = x.tx_standby; last_fc =
+                                      x.last_fc; remote_bs = x.remote_bs;
+                                      tx_block_counter = x.tx_block_counter;
+                                      tx_seqnum = x.tx_seqnum; wft_counter =
+                                      x.wft_counter; tx_frame_length =
+                                      x.tx_frame_length; timer_rx_fc =
+                                      x.timer_rx_fc; timer_tx_stmin = 
+                                      (t x); lim_times = x.lim_times;
+                                      lim_bits = x.lim_bits; lim_total =
+                                      x.lim_total; next_req_id =
+                                      x.next_req_id })) (timer_start s4.now)
+                                      (set (fun l -> l.tx_seqnum) (fun f ->
+                                        let z = fun r0 -> f r0.tx_seqnum in
+                                        (fun x -> { now = x.now; rx_state =
+                                        x.rx_state; rx_buffer = x.rx_buffer;
+                                        rx_frame_length = x.rx_frame_length;
+                                        last_seqnum = x.last_seqnum;
+                                        rx_block_counter =
+                                        x.rx_block_counter; actual_rxdl =
+                                        x.actual_rxdl; pending_fc =
+                                        x.pending_fc; pending_fc_status =
+                                        x.pending_fc_status; timer_rx_cf =
+                                        x.timer_rx_cf; rx_queue = x.rx_queue;
+                                        tx_state = x.tx_state; tx_queue =
+                                        x.tx_queue; active = x.active;
+                                        tx_standby = x.tx_standby; last_fc =
+                                        x.last_fc; remote_bs = x.remote_bs;
+                                        tx_block_counter =
+                                        x.tx_block_counter; tx_seqnum =
+                                        (z x); wft_counter = x.wft_counter;
+                                        tx_frame_length = x.tx_frame_length;
+                                        timer_rx_fc = x.timer_rx_fc;
+                                        timer_tx_stmin = x.timer_tx_stmin;
+                                        lim_times = x.lim_times; lim_bits =
+                                        x.lim_bits; lim_total = x.lim_total;
+                                        next_req_id = x.next_req_id }))
+                                        (fun _ ->
+                                        Z.coq_land
+                                          (Z.add s4.tx_seqnum (Zpos Coq_xH))
+                                          (Zpos (Coq_xI (Coq_xI (Coq_xI
+                                          Coq_xH))))) s4))), (Some m))
+                             | None -> None)
+                       else Some (s4, None)
+                     in
+                     (match emit with
+                      | Some p0 ->
+                        let (s5, out) = p0 in
+                        if r_is_depleted r'
+                        then if Z.ltb Z0 (r_remaining r')
+                             then let (s6, e6) = stop_sending false s5 in
+                                  tx_finish p s6
+                                    (app evs ((EErr BadGenerator) :: e6)) out
+                                    false
+                             else let (s6, e6) = stop_sending true s5 in
+                                  tx_finish p s6 (app evs e6) out false
+                        else if (&&) (negb (Z.eqb rbs Z0))
+                                  (Z.leb rbs s5.tx_block_counter)
+                             then tx_finish p
+                                    (start_rx_fc_timer c
+                                      (set (fun l -> l.tx_state) (fun f ->
+                                        let t = fun r0 -> f r0.tx_state in
+                                        (fun x -> { now = x.now; rx_state =
+                                        x.rx_state; rx_buffer = x.rx_buffer;
+                                        rx_frame_length = x.rx_frame_length;
+                                        last_seqnum = x.last_seqnum;
+                                        rx_block_counter =
+                                        x.rx_block_counter; actual_rxdl =
+                                        x.actual_rxdl; pending_fc =
+                                        x.pending_fc; pending_fc_status =
+                                        x.pending_fc_status; timer_rx_cf =
+                                        x.timer_rx_cf; rx_queue = x.rx_queue;
+                                        tx_state = (t x); tx_queue =
+                                        x.tx_queue; active = x.active;
+                                        tx_standby = x.tx_standby; last_fc =
+                                        x.last_fc; remote_bs = x.remote_bs;
+                                        tx_block_counter =
+                                        x.tx_block_counter; tx_seqnum =
+                                        x.tx_seqnum; wft_counter =
+                                        x.wft_counter; tx_frame_length =
+                                        x.tx_frame_length; timer_rx_fc =
+                                        x.timer_rx_fc; timer_tx_stmin =
+                                        x.timer_tx_stmin; lim_times =
+                                        x.lim_times; lim_bits = x.lim_bits;
+                                        lim_total = x.lim_total;
+                                        next_req_id = x.next_req_id }))
+                                        (fun _ -> TxWaitFC) s5)) evs out true
+                             else tx_finish p s5 evs out false
+                      | None ->
+                        mk_crash s4 evs (Zpos (Coq_xI (Coq_xI Coq_xH))))
+                   | None -> mk_crash s3 evs (Zpos (Coq_xO (Coq_xI Coq_xH))))
+             else tx_finish p s3 evs None false
+        else tx_finish p s3 evs None false
+      | None -> mk_crash s3 evs (Zpos (Coq_xO (Coq_xO (Coq_xO Coq_xH)))))
+   | None -> mk_crash s3 evs (Zpos (Coq_xO (Coq_xO (Coq_xO Coq_xH)))))
+
+(** val tx_fsm : cfg -> coq_Z -> layer -> event list -> tx_report **)
+
+let tx_fsm c allowed s3 evs =
+  let p = c.c_p in
+  (match s3.tx_state with
+   | TxIdle ->
+     (match idle_dequeue c s3.tx_queue s3 [] allowed with
+      | SRCrash site -> mk_crash s3 evs site
+      | SRDone (s4, evs4, out) -> tx_finish p s4 (app evs evs4) out false)
+   | TxWaitFC -> tx_finish p s3 evs None false
+   | TxTransmitCF -> tx_cf c allowed s3 evs
+   | TxSFStandby ->
+     (match s3.tx_standby with
+      | Some m ->
+        if Z.leb (zlen m.f_data) allowed
+        then let s4 =
+               set (fun l -> l.tx_standby) (fun f ->
+                 let o = fun r -> f r.tx_standby in
+                 (fun x -> { now = x.now; rx_state = x.rx_state; rx_buffer =
+                 x.rx_buffer; rx_frame_length = x.rx_frame_length;
+                 last_seqnum = x.last_seqnum; rx_block_counter =
+                 x.rx_block_counter; actual_rxdl = x.actual_rxdl;
+                 pending_fc = x.pending_fc; pending_fc_status =
+                 x.pending_fc_status; timer_rx_cf = x.timer_rx_cf; rx_queue =
+                 x.rx_queue; tx_state = x.tx_state; tx_queue = x.tx_queue;
+                 active = x.active; tx_standby = (o x); last_fc = x.last_fc;
+                 remote_bs = x.remote_bs; tx_block_counter =
+                 x.tx_block_counter; tx_seqnum = x.tx_seqnum; wft_counter =
+                 x.wft_counter; tx_frame_length = x.tx_frame_length;
+                 timer_rx_fc = x.timer_rx_fc; timer_tx_stmin =
+                 x.timer_tx_stmin; lim_times = x.lim_times; lim_bits =
+                 x.lim_bits; lim_total = x.lim_total; next_req_id =
+                 x.next_req_id })) (fun _ -> None) s3
+             in
+             (match s3.tx_state with
+              | TxFFStandby ->
+                tx_finish p
+                  (set (fun l -> l.tx_state) (fun f ->
+                    let t = fun r -> f r.tx_state in
+                    (fun x -> { now = x.now; rx_state = x.rx_state;
+                    rx_buffer = x.rx_buffer; rx_frame_length =
+                    x.rx_frame_length; last_seqnum = x.last_seqnum;
+                    rx_block_counter = x.rx_block_counter; actual_rxdl =
+                    x.actual_rxdl; pending_fc = x.pending_fc;
+                    pending_fc_status = x.pending_fc_status; timer_rx_cf =
+                    x.timer_rx_cf; rx_queue = x.rx_queue; tx_state = 
+                    (t x); tx_queue = x.tx_queue; active = x.active;
+                    tx_standby = x.tx_standby; last_fc = x.last_fc;
+                    remote_bs = x.remote_bs; tx_block_counter =
+                    x.tx_block_counter; tx_seqnum = x.tx_seqnum;
+                    wft_counter = x.wft_counter; tx_frame_length =
+                    x.tx_frame_length; timer_rx_fc = x.timer_rx_fc;
+                    timer_tx_stmin = x.timer_tx_stmin; lim_times =
+                    x.lim_times; lim_bits = x.lim_bits; lim_total =
+                    x.lim_total; next_req_id = x.next_req_id })) (fun _ ->
+                    TxWaitFC) (start_rx_fc_timer c s4)) evs (Some m) false
+              | _ ->
+                let (s5, evs5) = stop_sending true s4 in
+                tx_finish p s5 (app evs evs5) (Some m) false)
+        else tx_finish p s3 evs None false
+      | None -> tx_finish p s3 evs None false)
+   | TxFFStandby ->
+     (match s3.tx_standby with
+      | Some m ->
+        if Z.leb (zlen m.f_data) allowed
+        then let s4 =
+               set (fun l -> l.tx_standby) (fun f ->
+                 let o = fun r -> f r.tx_standby in
+                 (fun x -> { now = x.now; rx_state = x.rx_state; rx_buffer =
+                 x.rx_buffer; rx_frame_length = x.rx_frame_length;
+                 last_seqnum = x.last_seqnum; rx_block_counter =
+                 x.rx_block_counter; actual_rxdl = x.actual_rxdl;
+                 pending_fc = x.pending_fc; pending_fc_status =
+                 x.pending_fc_status; timer_rx_cf = x.timer_rx_cf; rx_queue =
+                 x.rx_queue; tx_state = x.tx_state; tx_queue = x.tx_queue;
+                 active = x.active; tx_standby = (o x); last_fc = x.last_fc;
+                 remote_bs = x.remote_bs; tx_block_counter =
+                 x.tx_block_counter; tx_seqnum = x.tx_seqnum; wft_counter =
+                 x.wft_counter; tx_frame_length = x.tx_frame_length;
+                 timer_rx_fc = x.timer_rx_fc; timer_tx_stmin =
+                 x.timer_tx_stmin; lim_times = x.lim_times; lim_bits =
+                 x.lim_bits; lim_total = x.lim_total; next_req_id =
+                 x.next_req_id })) (fun _ -> None) s3
+             in
+             (match s3.tx_state with
+              | TxFFStandby ->
+                tx_finish p
+                  (set (fun l -> l.tx_state) (fun f ->
+                    let t = fun r -> f r.tx_state in
+                    (fun x -> { now = x.now; rx_state = x.rx_state;
+                    rx_buffer = x.rx_buffer; rx_frame_length =
+                    x.rx_frame_length; last_seqnum = x.last_seqnum;
+                    rx_block_counter = x.rx_block_counter; actual_rxdl =
+                    x.actual_rxdl; pending_fc = x.pending_fc;
+                    pending_fc_status = x.pending_fc_status; timer_rx_cf =
+                    x.timer_rx_cf; rx_queue = x.rx_queue; tx_state = 
+                    (t x); tx_queue = x.tx_queue; active = x.active;
+                    tx_standby = x.tx_standby; last_fc = x.last_fc;
+                    remote_bs = x.remote_bs; tx_block_counter =
+                    x.tx_block_counter; tx_seqnum = x.tx_seqnum;
+                    wft_counter = x.wft_counter; tx_frame_length =
+                    x.tx_frame_length; timer_rx_fc = x.timer_rx_fc;
+                    timer_tx_stmin = x.timer_tx_stmin; lim_times =
+                    x.lim_times; lim_bits = x.lim_bits; lim_total =
+                    x.lim_total; next_req_id = x.next_req_id })) (fun _ ->
+                    TxWaitFC) (start_rx_fc_timer c s4)) evs (Some m) false
+              | _ ->
+                let (s5, evs5) = stop_sending true s4 in
+                tx_finish p s5 (app evs evs5) (Some m) false)
+        else tx_finish p s3 evs None false
+      | None -> tx_finish p s3 evs None false))
+
+(** val process_tx_main : cfg -> coq_Z -> layer -> tx_report **)
+
+let process_tx_main c allowed s =
+  match tx_after_fc c s with
+  | Coq_inl r -> r
+  | Coq_inr p -> let (s3, evs) = p in tx_fsm c allowed s3 evs
+
 (** val process_tx : cfg -> layer -> tx_report **)
 
 let process_tx c s0 =
@@ -2727,1029 +3106,7 @@ let process_tx c s0 =
   in
   (match pend with
    | Coq_inl r -> r
-   | Coq_inr s ->
-     let fc = s.last_fc in
-     let s1 =
-       set (fun l -> l.last_fc) (fun f ->
-         let o = fun r -> f r.last_fc in
-         (fun x -> { now = x.now; rx_state = x.rx_state; rx_buffer =
-         x.rx_buffer; rx_frame_length = x.rx_frame_length; last_seqnum =
-         x.last_seqnum; rx_block_counter = x.rx_block_counter; actual_rxdl =
-         x.actual_rxdl; pending_fc = x.pending_fc; pending_fc_status =
-         x.pending_fc_status; timer_rx_cf = x.timer_rx_cf; rx_queue =
-         x.rx_queue; tx_state = x.tx_state; tx_queue = x.tx_queue; active =
-         x.active; tx_standby = x.tx_standby; last_fc = (o x); remote_bs =
-         x.remote_bs; tx_block_counter = x.tx_block_counter; tx_seqnum =
-         x.tx_seqnum; wft_counter = x.wft_counter; tx_frame_length =
-         x.tx_frame_length; timer_rx_fc = x.timer_rx_fc; timer_tx_stmin =
-         x.timer_tx_stmin; lim_times = x.lim_times; lim_bits = x.lim_bits;
-         lim_total = x.lim_total; next_req_id = x.next_req_id })) (fun _ ->
-         None) s
-     in
-     let after_fc =
-       match fc with
-       | Some f -> handle_fc c s1 f
-       | None -> ((Some (s1, [])), (s1, []))
-     in
-     let (o, p0) = after_fc in
-     (match o with
-      | Some _ ->
-        let (s2, evs1) = p0 in
-        if timer_timed_out s2.now s2.timer_rx_fc
-        then let (s', e) = stop_sending false s2 in
-             let evs2 = (EErr FlowControlTimeout) :: e in
-             let chk =
-               match s'.tx_state with
-               | TxIdle -> Coq_inr (s', [])
-               | TxWaitFC ->
-                 (match s'.active with
-                  | Some r ->
-                    if (&&) (r_is_depleted r)
-                         (match s'.tx_standby with
-                          | Some _ -> false
-                          | None -> true)
-                    then Coq_inr (stop_sending true s')
-                    else Coq_inr (s', [])
-                  | None -> Coq_inl (Zpos (Coq_xI (Coq_xO Coq_xH))))
-               | _ ->
-                 (match s'.active with
-                  | Some r ->
-                    if (&&) (r_is_depleted r)
-                         (match s'.tx_standby with
-                          | Some _ -> false
-                          | None -> true)
-                    then Coq_inr (stop_sending true s')
-                    else Coq_inr (s', [])
-                  | None -> Coq_inl (Zpos (Coq_xI (Coq_xO Coq_xH))))
-             in
-             (match chk with
-              | Coq_inl site -> mk_crash s' (app evs1 evs2) site
-              | Coq_inr p1 ->
-                let (s3, evs3) = p1 in
-                let evs = app evs1 (app evs2 evs3) in
-                let finish = fun s'0 evs' out imm ->
-                  match out with
-                  | Some m ->
-                    mk_tr (lim_inform p (zlen m.f_data) s'0) evs' out imm
-                  | None -> mk_tr s'0 evs' None imm
-                in
-                (match s3.tx_state with
-                 | TxIdle ->
-                   (match idle_dequeue c s3.tx_queue s3 [] allowed with
-                    | SRCrash site -> mk_crash s3 evs site
-                    | SRDone (s4, evs4, out) ->
-                      finish s4 (app evs evs4) out false)
-                 | TxWaitFC -> finish s3 evs None false
-                 | TxTransmitCF ->
-                   (match s3.remote_bs with
-                    | Some rbs ->
-                      (match s3.active with
-                       | Some r ->
-                         if timer_timed_out s3.now s3.timer_tx_stmin
-                         then let data_length =
-                                Z.sub (Z.sub p.p_tx_dl (Zpos Coq_xH))
-                                  (zlen (c_tx_prefix c))
-                              in
-                              let payload_length =
-                                Z.min data_length (r_remaining r)
-                              in
-                              if Z.leb payload_length allowed
-                              then let (o0, r') =
-                                     consume payload_length false r
-                                   in
-                                   (match o0 with
-                                    | Some payload ->
-                                      let s4 =
-                                        set (fun l -> l.active) (fun f ->
-                                          let o1 = fun r0 -> f r0.active in
-                                          (fun x -> { now = x.now; rx_state =
-                                          x.rx_state; rx_buffer =
-                                          x.rx_buffer; rx_frame_length =
-                                          x.rx_frame_length; last_seqnum =
-                                          x.last_seqnum; rx_block_counter =
-                                          x.rx_block_counter; actual_rxdl =
-                                          x.actual_rxdl; pending_fc =
-                                          x.pending_fc; pending_fc_status =
-                                          x.pending_fc_status; timer_rx_cf =
-                                          x.timer_rx_cf; rx_queue =
-                                          x.rx_queue; tx_state = x.tx_state;
-                                          tx_queue = x.tx_queue; active =
-                                          (o1 x); tx_standby = x.tx_standby;
-                                          last_fc = x.last_fc; remote_bs =
-                                          x.remote_bs; tx_block_counter =
-                                          x.tx_block_counter; tx_seqnum =
-                                          x.tx_seqnum; wft_counter =
-                                          x.wft_counter; tx_frame_length =
-                                          x.tx_frame_length; timer_rx_fc =
-                                          x.timer_rx_fc; timer_tx_stmin =
-                                          x.timer_tx_stmin; lim_times =
-                                          x.lim_times; lim_bits = x.lim_bits;
-                                          lim_total = x.lim_total;
-                                          next_req_id = x.next_req_id }))
-                                          (fun _ -> Some r') s3
-                                      in
-                                      let emit =
-                                        if Z.ltb Z0 (zlen payload)
-                                        then (match make_tx_msg c
-                                                      (c_tx_id c Physical)
-                                                      (app (c_tx_prefix c)
-                                                        (app
-                                                          ((Z.coq_lor (Zpos
-                                                             (Coq_xO (Coq_xO
-                                                             (Coq_xO (Coq_xO
-                                                             (Coq_xO
-                                                             Coq_xH))))))
-                                                             s4.tx_seqnum) :: [])
-                                                          payload)) with
-                                              | Some m ->
-                                                Some
-                                                  ((set (fun l ->
-                                                     l.tx_block_counter)
-                                                     (fun f ->
-                                                     let z = fun r0 ->
-                                                       f r0.tx_block_counter
-                                                     in
-                                                     (fun x -> { now = x.now;
-                                                     rx_state = x.rx_state;
-                                                     rx_buffer = x.rx_buffer;
-                                                     rx_frame_length =
-                                                     x.rx_frame_length;
-                                                     last_seqnum =
-                                                     x.last_seqnum;
-                                                     rx_block_counter =
-                                                     x.rx_block_counter;
-                                                     actual_rxdl =
-                                                     x.actual_rxdl;
-                                                     pending_fc =
-                                                     x.pending_fc;
-                                                     pending_fc_status =
-                                                     x.pending_fc_status;
-                                                     timer_rx_cf =
-                                                     x.timer_rx_cf;
-                                                     rx_queue = x.rx_queue;
-                                                     tx_state = x.tx_state;
-                                                     tx_queue = x.tx_queue;
-                                                     active = x.active;
-                                                     tx_standby =
-                                                     x.tx_standby; last_fc =
-                                                     x.last_fc; remote_bs =
-                                                     x.remote_bs;
-                                                     tx_block_counter =
-                                                     (z x); tx_seqnum =
-                                                     x.tx_seqnum;
-                                                     wft_counter =
-                                                     x.wft_counter;
-                                                     tx_frame_length =
-                                                     x.tx_frame_length;
-                                                     timer_rx_fc =
-                                                     x.timer_rx_fc;
-                                                     timer_tx_stmin =
-                                                     x.timer_tx_stmin;
-                                                     lim_times = x.lim_times;
-                                                     lim_bits = x.lim_bits;
-                                                     lim_total = x.lim_total;
-                                                     next_req_id =
-                                                     x.next_req_id }))
-                                                     (fun _ ->
-                                                     Z.add
-                                                       s4.tx_block_counter
-                                                       (Zpos Coq_xH))
-                                                     (set (fun l ->
-                                                       l.timer_tx_stmin)
-                                                       (fun f ->
-                                                       let t = fun r0 ->
-                                                         f r0.timer_tx_stmin
-                                                       in
-                                                       (fun x -> { now =
-                                                       x.now; rx_state =
-                                                       x.rx_state;
-                                                       rx_buffer =
-                                                       x.rx_buffer;
-                                                       rx_frame_length =
-                                                       x.rx_frame_length;
-                                                       last_seqnum =
-                                                       x.last_seqnum;
-                                                       rx_block_counter =
-                                                       x.rx_block_counter;
-                                                       actual_rxdl =
-                                                       x.actual_rxdl;
-                                                       pending_fc =
-                                                       x.pending_fc;
-                                                       pending_fc_status =
-                                                       x.pending_fc_status;
-                                                       timer_rx_cf =
-                                                       x.timer_rx_cf;
-                                                       rx_queue = x.rx_queue;
-                                                       tx_state = x.tx_state;
-                                                       tx_queue = x.tx_queue;
-                                                       active = x.active;
-                                                       tx_standby =
-                                                       x.tx_standby;
-                                                       last_fc = x.last_fc;
-                                                       remote_bs =
-                                                       x.remote_bs;
-                                                       tx_block_counter =
-                                                       x.tx_block_counter;
-                                                       tx_seqnum =
-                                                       x.tx_seqnum;
-                                                       wft_counter =
-                                                       x.wft_counter;
-                                                       tx_frame_length =
-                                                       x.tx_frame_length;
-                                                       timer_rx_fc =
-                                                       x.timer_rx_fc;
-                                                       timer_tx_stmin =
-                                                       (t x); lim_times =
-                                                       x.lim_times;
-                                                       lim_bits = x.lim_bits;
-                                                       lim_total =
-                                                       x.lim_total;
-                                                       next_req_id =
-                                                       x.next_req_id }))
-                                                       (timer_start s4.now)
-                                                       (set (fun l ->
-                                                         l.tx_seqnum)
-                                                         (fun f ->
-                                                         let z = fun r0 ->
-                                                           f r0.tx_seqnum
-                                                         in
-                                                         (fun x -> { now =
-                                                         x.now; rx_state =
-                                                         x.rx_state;
-                                                         rx_buffer =
-                                                         x.rx_buffer;
-                                                         rx_frame_length =
-                                                         x.rx_frame_length;
-                                                         last_seqnum =
-                                                         x.last_seqnum;
-                                                         rx_block_counter =
-                                                         x.rx_block_counter;
-                                                         actual_rxdl =
-                                                         x.actual_rxdl;
-                                                         pending_fc =
-                                                         x.pending_fc;
-                                                         pending_fc_status =
-                                                         x.pending_fc_status;
-                                                         timer_rx_cf =
-                                                         x.timer_rx_cf;
-                                                         rx_queue =
-                                                         x.rx_queue;
-                                                         tx_state =
-                                                         x.tx_state;
-                                                         tx_queue =
-                                                         x.tx_queue; active =
-                                                         x.active;
-                                                         tx_standby =
-                                                         x.tx_standby;
-                                                         last_fc = x.last_fc;
-                                                         remote_bs =
-                                                         x.remote_bs;
-                                                         tx_block_counter =
-                                                         x.tx_block_counter;
-                                                         tx_seqnum = 
-                                                         (z x); wft_counter =
-                                                         x.wft_counter;
-                                                         tx_frame_length =
-                                                         x.tx_frame_length;
-                                                         timer_rx_fc =
-                                                         x.timer_rx_fc;
-                                                         timer_tx_stmin =
-                                                         x.timer_tx_stmin;
-                                                         lim_times =
-                                                         x.lim_times;
-                                                         lim_bits =
-                                                         x.lim_bits;
-                                                         lim_total =
-                                                         x.lim_total;
-                                                         next_req_id =
-                                                         x.next_req_id }))
-                                                         (fun _ ->
-                                                         Z.coq_land
-                                                           (Z.add
-                                                             s4.tx_seqnum
-                                                             (Zpos Coq_xH))
-                                                           (Zpos (Coq_xI
-                                                           (Coq_xI (Coq_xI
-                                                           Coq_xH))))) s4))),
-                                                  (Some m))
-                                              | None -> None)
-                                        else Some (s4, None)
-                                      in
-                                      (match emit with
-                                       | Some p2 ->
-                                         let (s5, out) = p2 in
-                                         if r_is_depleted r'
-                                         then if Z.ltb Z0 (r_remaining r')
-                                              then let (s6, e6) =
-                                                     stop_sending false s5
-                                                   in
-                                                   finish s6
-                                                     (app evs ((EErr
-                                                       BadGenerator) :: e6))
-                                                     out false
-                                              else let (s6, e6) =
-                                                     stop_sending true s5
-                                                   in
-                                                   finish s6 (app evs e6) out
-                                                     false
-                                         else if (&&) (negb (Z.eqb rbs Z0))
-                                                   (Z.leb rbs
-                                                     s5.tx_block_counter)
-                                              then finish
-                                                     (start_rx_fc_timer c
-                                                       (set (fun l ->
-                                                         l.tx_state)
-                                                         (fun f ->
-                                                         let t = fun r0 ->
-                                                           f r0.tx_state
-                                                         in
-                                                         (fun x -> { now =
-                                                         x.now; rx_state =
-                                                         x.rx_state;
-                                                         rx_buffer =
-                                                         x.rx_buffer;
-                                                         rx_frame_length =
-                                                         x.rx_frame_length;
-                                                         last_seqnum =
-                                                         x.last_seqnum;
-                                                         rx_block_counter =
-                                                         x.rx_block_counter;
-                                                         actual_rxdl =
-                                                         x.actual_rxdl;
-                                                         pending_fc =
-                                                         x.pending_fc;
-                                                         pending_fc_status =
-                                                         x.pending_fc_status;
-                                                         timer_rx_cf =
-                                                         x.timer_rx_cf;
-                                                         rx_queue =
-                                                         x.rx_queue;
-                                                         tx_state = (t x);
-                                                         tx_queue =
-                                                         x.tx_queue; active =
-                                                         x.active;
-                                                         tx_standby =
-                                                         x.tx_standby;
-                                                         last_fc = x.last_fc;
-                                                         remote_bs =
-                                                         x.remote_bs;
-                                                         tx_block_counter =
-                                                         x.tx_block_counter;
-                                                         tx_seqnum =
-                                                         x.tx_seqnum;
-                                                         wft_counter =
-                                                         x.wft_counter;
-                                                         tx_frame_length =
-                                                         x.tx_frame_length;
-                                                         timer_rx_fc =
-                                                         x.timer_rx_fc;
-                                                         timer_tx_stmin =
-                                                         x.timer_tx_stmin;
-                                                         lim_times =
-                                                         x.lim_times;
-                                                         lim_bits =
-                                                         x.lim_bits;
-                                                         lim_total =
-                                                         x.lim_total;
-                                                         next_req_id =
-                                                         x.next_req_id }))
-                                                         (fun _ -> TxWaitFC)
-                                                         s5)) evs out true
-                                              else finish s5 evs out false
-                                       | None ->
-                                         mk_crash s4 evs (Zpos (Coq_xI
-                                           (Coq_xI Coq_xH))))
-                                    | None ->
-                                      mk_crash s3 evs (Zpos (Coq_xO (Coq_xI
-                                        Coq_xH))))
-                              else finish s3 evs None false
-                         else finish s3 evs None false
-                       | None ->
-                         mk_crash s3 evs (Zpos (Coq_xO (Coq_xO (Coq_xO
-                           Coq_xH)))))
-                    | None ->
-                      mk_crash s3 evs (Zpos (Coq_xO (Coq_xO (Coq_xO Coq_xH)))))
-                 | TxSFStandby ->
-                   (match s3.tx_standby with
-                    | Some m ->
-                      if Z.leb (zlen m.f_data) allowed
-                      then let s4 =
-                             set (fun l -> l.tx_standby) (fun f ->
-                               let o0 = fun r -> f r.tx_standby in
-                               (fun x -> { now = x.now; rx_state =
-                               x.rx_state; rx_buffer = x.rx_buffer;
-                               rx_frame_length = x.rx_frame_length;
-                               last_seqnum = x.last_seqnum;
-                               rx_block_counter = x.rx_block_counter;
-                               actual_rxdl = x.actual_rxdl; pending_fc =
-                               x.pending_fc; pending_fc_status =
-                               x.pending_fc_status; timer_rx_cf =
-                               x.timer_rx_cf; rx_queue = x.rx_queue;
-                               tx_state = x.tx_state; tx_queue = x.tx_queue;
-                               active = x.active; tx_standby = (o0 x);
-                               last_fc = x.last_fc; remote_bs = x.remote_bs;
-                               tx_block_counter = x.tx_block_counter;
-                               tx_seqnum = x.tx_seqnum; wft_counter =
-                               x.wft_counter; tx_frame_length =
-                               x.tx_frame_length; timer_rx_fc =
-                               x.timer_rx_fc; timer_tx_stmin =
-                               x.timer_tx_stmin; lim_times = x.lim_times;
-                               lim_bits = x.lim_bits; lim_total =
-                               x.lim_total; next_req_id = x.next_req_id }))
-                               (fun _ -> None) s3
-                           in
-                           (match s3.tx_state with
-                            | TxFFStandby ->
-                              finish
-                                (set (fun l -> l.tx_state) (fun f ->
-                                  let t = fun r -> f r.tx_state in
-                                  (fun x -> { now = x.now; rx_state =
-                                  x.rx_state; rx_buffer = x.rx_buffer;
-                                  rx_frame_length = x.rx_frame_length;
-                                  last_seqnum = x.last_seqnum;
-                                  rx_block_counter = x.rx_block_counter;
-                                  actual_rxdl = x.actual_rxdl; pending_fc =
-                                  x.pending_fc; pending_fc_status =
-                                  x.pending_fc_status; timer_rx_cf =
-                                  x.timer_rx_cf; rx_queue = x.rx_queue;
-                                  tx_state = (t x); tx_queue = x.tx_queue;
-                                  active = x.active; tx_standby =
-                                  x.tx_standby; last_fc = x.last_fc;
-                                  remote_bs = x.remote_bs; tx_block_counter =
-                                  x.tx_block_counter; tx_seqnum =
-                                  x.tx_seqnum; wft_counter = x.wft_counter;
-                                  tx_frame_length = x.tx_frame_length;
-                                  timer_rx_fc = x.timer_rx_fc;
-                                  timer_tx_stmin = x.timer_tx_stmin;
-                                  lim_times = x.lim_times; lim_bits =
-                                  x.lim_bits; lim_total = x.lim_total;
-                                  next_req_id = x.next_req_id })) (fun _ ->
-                                  TxWaitFC) (start_rx_fc_timer c s4)) evs
-                                (Some m) false
-                            | _ ->
-                              let (s5, evs5) = stop_sending true s4 in
-                              finish s5 (app evs evs5) (Some m) false)
-                      else finish s3 evs None false
-                    | None -> finish s3 evs None false)
-                 | TxFFStandby ->
-                   (match s3.tx_standby with
-                    | Some m ->
-                      if Z.leb (zlen m.f_data) allowed
-                      then let s4 =
-                             set (fun l -> l.tx_standby) (fun f ->
-                               let o0 = fun r -> f r.tx_standby in
-                               (fun x -> { now = x.now; rx_state =
-                               x.rx_state; rx_buffer = x.rx_buffer;
-                               rx_frame_length = x.rx_frame_length;
-                               last_seqnum = x.last_seqnum;
-                               rx_block_counter = x.rx_block_counter;
-                               actual_rxdl = x.actual_rxdl; pending_fc =
-                               x.pending_fc; pending_fc_status =
-                               x.pending_fc_status; timer_rx_cf =
-                               x.timer_rx_cf; rx_queue = x.rx_queue;
-                               tx_state = x.tx_state; tx_queue = x.tx_queue;
-                               active = x.active; tx_standby = (o0 x);
-                               last_fc = x.last_fc; remote_bs = x.remote_bs;
-                               tx_block_counter = x.tx_block_counter;
-                               tx_seqnum = x.tx_seqnum; wft_counter =
-                               x.wft_counter; tx_frame_length =
-                               x.tx_frame_length; timer_rx_fc =
-                               x.timer_rx_fc; timer_tx_stmin =
-                               x.timer_tx_stmin; lim_times = x.lim_times;
-                               lim_bits = x.lim_bits; lim_total =
-                               x.lim_total; next_req_id = x.next_req_id }))
-                               (fun _ -> None) s3
-                           in
-                           (match s3.tx_state with
-                            | TxFFStandby ->
-                              finish
-                                (set (fun l -> l.tx_state) (fun f ->
-                                  let t = fun r -> f r.tx_state in
-                                  (fun x -> { now = x.now; rx_state =
-                                  x.rx_state; rx_buffer = x.rx_buffer;
-                                  rx_frame_length = x.rx_frame_length;
-                                  last_seqnum = x.last_seqnum;
-                                  rx_block_counter = x.rx_block_counter;
-                                  actual_rxdl = x.actual_rxdl; pending_fc =
-                                  x.pending_fc; pending_fc_status =
-                                  x.pending_fc_status; timer_rx_cf =
-                                  x.timer_rx_cf; rx_queue = x.rx_queue;
-                                  tx_state = (t x); tx_queue = x.tx_queue;
-                                  active = x.active; tx_standby =
-                                  x.tx_standby; last_fc = x.last_fc;
-                                  remote_bs = x.remote_bs; tx_block_counter =
-                                  x.tx_block_counter; tx_seqnum =
-                                  x.tx_seqnum; wft_counter = x.wft_counter;
-                                  tx_frame_length = x.tx_frame_length;
-                                  timer_rx_fc = x.timer_rx_fc;
-                                  timer_tx_stmin = x.timer_tx_stmin;
-                                  lim_times = x.lim_times; lim_bits =
-                                  x.lim_bits; lim_total = x.lim_total;
-                                  next_req_id = x.next_req_id })) (fun _ ->
-                                  TxWaitFC) (start_rx_fc_timer c s4)) evs
-                                (Some m) false
-                            | _ ->
-                              let (s5, evs5) = stop_sending true s4 in
-                              finish s5 (app evs evs5) (Some m) false)
-                      else finish s3 evs None false
-                    | None -> finish s3 evs None false)))
-        else let evs2 = [] in
-             let chk =
-               match s2.tx_state with
-               | TxIdle -> Coq_inr (s2, [])
-               | TxWaitFC ->
-                 (match s2.active with
-                  | Some r ->
-                    if (&&) (r_is_depleted r)
-                         (match s2.tx_standby with
-                          | Some _ -> false
-                          | None -> true)
-                    then Coq_inr (stop_sending true s2)
-                    else Coq_inr (s2, [])
-                  | None -> Coq_inl (Zpos (Coq_xI (Coq_xO Coq_xH))))
-               | _ ->
-                 (match s2.active with
-                  | Some r ->
-                    if (&&) (r_is_depleted r)
-                         (match s2.tx_standby with
-                          | Some _ -> false
-                          | None -> true)
-                    then Coq_inr (stop_sending true s2)
-                    else Coq_inr (s2, [])
-                  | None -> Coq_inl (Zpos (Coq_xI (Coq_xO Coq_xH))))
-             in
-             (match chk with
-              | Coq_inl site -> mk_crash s2 (app evs1 evs2) site
-              | Coq_inr p1 ->
-                let (s3, evs3) = p1 in
-                let evs = app evs1 (app evs2 evs3) in
-                let finish = fun s' evs' out imm ->
-                  match out with
-                  | Some m ->
-                    mk_tr (lim_inform p (zlen m.f_data) s') evs' out imm
-                  | None -> mk_tr s' evs' None imm
-                in
-                (match s3.tx_state with
-                 | TxIdle ->
-                   (match idle_dequeue c s3.tx_queue s3 [] allowed with
-                    | SRCrash site -> mk_crash s3 evs site
-                    | SRDone (s4, evs4, out) ->
-                      finish s4 (app evs evs4) out false)
-                 | TxWaitFC -> finish s3 evs None false
-                 | TxTransmitCF ->
-                   (match s3.remote_bs with
-                    | Some rbs ->
-                      (match s3.active with
-                       | Some r ->
-                         if timer_timed_out s3.now s3.timer_tx_stmin
-                         then let data_length =
-                                Z.sub (Z.sub p.p_tx_dl (Zpos Coq_xH))
-                                  (zlen (c_tx_prefix c))
-                              in
-                              let payload_length =
-                                Z.min data_length (r_remaining r)
-                              in
-                              if Z.leb payload_length allowed
-                              then let (o0, r') =
-                                     consume payload_length false r
-                                   in
-                                   (match o0 with
-                                    | Some payload ->
-                                      let s4 =
-                                        set (fun l -> l.active) (fun f ->
-                                          let o1 = fun r0 -> f r0.active in
-                                          (fun x -> { now = x.now; rx_state =
-                                          x.rx_state; rx_buffer =
-                                          x.rx_buffer; rx_frame_length =
-                                          x.rx_frame_length; last_seqnum =
-                                          x.last_seqnum; rx_block_counter =
-                                          x.rx_block_counter; actual_rxdl =
-                                          x.actual_rxdl; pending_fc =
-                                          x.pending_fc; pending_fc_status =
-                                          x.pending_fc_status; timer_rx_cf =
-                                          x.timer_rx_cf; rx_queue =
-                                          x.rx_queue; tx_state = x.tx_state;
-                                          tx_queue = x.tx_queue; active =
-                                          (o1 x); tx_standby = x.tx_standby;
-                                          last_fc = x.last_fc; remote_bs =
-                                          x.remote_bs; tx_block_counter =
-                                          x.tx_block_counter; tx_seqnum =
-                                          x.tx_seqnum; wft_counter =
-                                          x.wft_counter; tx_frame_length =
-                                          x.tx_frame_length; timer_rx_fc =
-                                          x.timer_rx_fc; timer_tx_stmin =
-                                          x.timer_tx_stmin; lim_times =
-                                          x.lim_times; lim_bits = x.lim_bits;
-                                          lim_total = x.lim_total;
-                                          next_req_id = x.next_req_id }))
-                                          (fun _ -> Some r') s3
-                                      in
-                                      let emit =
-                                        if Z.ltb Z0 (zlen payload)
-                                        then (match make_tx_msg c
-                                                      (c_tx_id c Physical)
-                                                      (app (c_tx_prefix c)
-                                                        (app
-                                                          ((Z.coq_lor (Zpos
-                                                             (Coq_xO (Coq_xO
-                                                             (Coq_xO (Coq_xO
-                                                             (Coq_xO
-                                                             Coq_xH))))))
-                                                             s4.tx_seqnum) :: [])
-                                                          payload)) with
-                                              | Some m ->
-                                                Some
-                                                  ((set (fun l ->
-                                                     l.tx_block_counter)
-                                                     (fun f ->
-                                                     let z = fun r0 ->
-                                                       f r0.tx_block_counter
-                                                     in
-                                                     (fun x -> { now = x.now;
-                                                     rx_state = x.rx_state;
-                                                     rx_buffer = x.rx_buffer;
-                                                     rx_frame_length =
-                                                     x.rx_frame_length;
-                                                     last_seqnum =
-                                                     x.last_seqnum;
-                                                     rx_block_counter =
-                                                     x.rx_block_counter;
-                                                     actual_rxdl =
-                                                     x.actual_rxdl;
-                                                     pending_fc =
-                                                     x.pending_fc;
-                                                     pending_fc_status =
-                                                     x.pending_fc_status;
-                                                     timer_rx_cf =
-                                                     x.timer_rx_cf;
-                                                     rx_queue = x.rx_queue;
-                                                     tx_state = x.tx_state;
-                                                     tx_queue = x.tx_queue;
-                                                     active = x.active;
-                                                     tx_standby =
-                                                     x.tx_standby; last_fc =
-                                                     x.last_fc; remote_bs =
-                                                     x.remote_bs;
-                                                     tx_block_counter =
-                                                     (z x); tx_seqnum =
-                                                     x.tx_seqnum;
-                                                     wft_counter =
-                                                     x.wft_counter;
-                                                     tx_frame_length =
-                                                     x.tx_frame_length;
-                                                     timer_rx_fc =
-                                                     x.timer_rx_fc;
-                                                     timer_tx_stmin =
-                                                     x.timer_tx_stmin;
-                                                     lim_times = x.lim_times;
-                                                     lim_bits = x.lim_bits;
-                                                     lim_total = x.lim_total;
-                                                     next_req_id =
-                                                     x.next_req_id }))
-                                                     (fun _ ->
-                                                     Z.add
-                                                       s4.tx_block_counter
-                                                       (Zpos Coq_xH))
-                                                     (set (fun l ->
-                                                       l.timer_tx_stmin)
-                                                       (fun f ->
-                                                       let t = fun r0 ->
-                                                         f r0.timer_tx_stmin
-                                                       in
-                                                       (fun x -> { now =
-                                                       x.now; rx_state =
-                                                       x.rx_state;
-                                                       rx_buffer =
-                                                       x.rx_buffer;
-                                                       rx_frame_length =
-                                                       x.rx_frame_length;
-                                                       last_seqnum =
-                                                       x.last_seqnum;
-                                                       rx_block_counter =
-                                                       x.rx_block_counter;
-                                                       actual_rxdl =
-                                                       x.actual_rxdl;
-                                                       pending_fc =
-                                                       x.pending_fc;
-                                                       pending_fc_status =
-                                                       x.pending_fc_status;
-                                                       timer_rx_cf =
-                                                       x.timer_rx_cf;
-                                                       rx_queue = x.rx_queue;
-                                                       tx_state = x.tx_state;
-                                                       tx_queue = x.tx_queue;
-                                                       active = x.active;
-                                                       tx_standby =
-                                                       x.tx_standby;
-                                                       last_fc = x.last_fc;
-                                                       remote_bs =
-                                                       x.remote_bs;
-                                                       tx_block_counter =
-                                                       x.tx_block_counter;
-                                                       tx_seqnum =
-                                                       x.tx_seqnum;
-                                                       wft_counter =
-                                                       x.wft_counter;
-                                                       tx_frame_length =
-                                                       x.tx_frame_length;
-                                                       timer_rx_fc =
-                                                       x.timer_rx_fc;
-                                                       timer_tx_stmin =
-                                                       (t x); lim_times =
-                                                       x.lim_times;
-                                                       lim_bits = x.lim_bits;
-                                                       lim_total =
-                                                       x.lim_total;
-                                                       next_req_id =
-                                                       x.next_req_id }))
-                                                       (timer_start s4.now)
-                                                       (set (fun l ->
-                                                         l.tx_seqnum)
-                                                         (fun f ->
-                                                         let z = fun r0 ->
-                                                           f r0.tx_seqnum
-                                                         in
-                                                         (fun x -> { now =
-                                                         x.now; rx_state =
-                                                         x.rx_state;
-                                                         rx_buffer =
-                                                         x.rx_buffer;
-                                                         rx_frame_length =
-                                                         x.rx_frame_length;
-                                                         last_seqnum =
-                                                         x.last_seqnum;
-                                                         rx_block_counter =
-                                                         x.rx_block_counter;
-                                                         actual_rxdl =
-                                                         x.actual_rxdl;
-                                                         pending_fc =
-                                                         x.pending_fc;
-                                                         pending_fc_status =
-                                                         x.pending_fc_status;
-                                                         timer_rx_cf =
-                                                         x.timer_rx_cf;
-                                                         rx_queue =
-                                                         x.rx_queue;
-                                                         tx_state =
-                                                         x.tx_state;
-                                                         tx_queue =
-                                                         x.tx_queue; active =
-                                                         x.active;
-                                                         tx_standby =
-                                                         x.tx_standby;
-                                                         last_fc = x.last_fc;
-                                                         remote_bs =
-                                                         x.remote_bs;
-                                                         tx_block_counter =
-                                                         x.tx_block_counter;
-                                                         tx_seqnum = 
-                                                         (z x); wft_counter =
-                                                         x.wft_counter;
-                                                         tx_frame_length =
-                                                         x.tx_frame_length;
-                                                         timer_rx_fc =
-                                                         x.timer_rx_fc;
-                                                         timer_tx_stmin =
-                                                         x.timer_tx_stmin;
-                                                         lim_times =
-                                                         x.lim_times;
-                                                         lim_bits =
-                                                         x.lim_bits;
-                                                         lim_total =
-                                                         x.lim_total;
-                                                         next_req_id =
-                                                         x.next_req_id }))
-                                                         (fun _ ->
-                                                         Z.coq_land
-                                                           (Z.add
-                                                             s4.tx_seqnum
-                                                             (Zpos Coq_xH))
-                                                           (Zpos (Coq_xI
-                                                           (Coq_xI (Coq_xI
-                                                           Coq_xH))))) s4))),
-                                                  (Some m))
-                                              | None -> None)
-                                        else Some (s4, None)
-                                      in
-                                      (match emit with
-                                       | Some p2 ->
-                                         let (s5, out) = p2 in
-                                         if r_is_depleted r'
-                                         then if Z.ltb Z0 (r_remaining r')
-                                              then let (s6, e6) =
-                                                     stop_sending false s5
-                                                   in
-                                                   finish s6
-                                                     (app evs ((EErr
-                                                       BadGenerator) :: e6))
-                                                     out false
-                                              else let (s6, e6) =
-                                                     stop_sending true s5
-                                                   in
-                                                   finish s6 (app evs e6) out
-                                                     false
-                                         else if (&&) (negb (Z.eqb rbs Z0))
-                                                   (Z.leb rbs
-                                                     s5.tx_block_counter)
-                                              then finish
-                                                     (start_rx_fc_timer c
-                                                       (set (fun l ->
-                                                         l.tx_state)
-                                                         (fun f ->
-                                                         let t = fun r0 ->
-                                                           f r0.tx_state
-                                                         in
-                                                         (fun x -> { now =
-                                                         x.now; rx_state =
-                                                         x.rx_state;
-                                                         rx_buffer =
-                                                         x.rx_buffer;
-                                                         rx_frame_length =
-                                                         x.rx_frame_length;
-                                                         last_seqnum =
-                                                         x.last_seqnum;
-                                                         rx_block_counter =
-                                                         x.rx_block_counter;
-                                                         actual_rxdl =
-                                                         x.actual_rxdl;
-                                                         pending_fc =
-                                                         x.pending_fc;
-                                                         pending_fc_status =
-                                                         x.pending_fc_status;
-                                                         timer_rx_cf =
-                                                         x.timer_rx_cf;
-                                                         rx_queue =
-                                                         x.rx_queue;
-                                                         tx_state = (t x);
-                                                         tx_queue =
-                                                         x.tx_queue; active =
-                                                         x.active;
-                                                         tx_standby =
-                                                         x.tx_standby;
-                                                         last_fc = x.last_fc;
-                                                         remote_bs =
-                                                         x.remote_bs;
-                                                         tx_block_counter =
-                                                         x.tx_block_counter;
-                                                         tx_seqnum =
-                                                         x.tx_seqnum;
-                                                         wft_counter =
-                                                         x.wft_counter;
-                                                         tx_frame_length =
-                                                         x.tx_frame_length;
-                                                         timer_rx_fc =
-                                                         x.timer_rx_fc;
-                                                         timer_tx_stmin =
-                                                         x.timer_tx_stmin;
-                                                         lim_times =
-                                                         x.lim_times;
-                                                         lim_bits =
-                                                         x.lim_bits;
-                                                         lim_total =
-                                                         x.lim_total;
-                                                         next_req_id =
-                                                         x.next_req_id }))
-                                                         (fun _ -> TxWaitFC)
-                                                         s5)) evs out true
-                                              else finish s5 evs out false
-                                       | None ->
-                                         mk_crash s4 evs (Zpos (Coq_xI
-                                           (Coq_xI Coq_xH))))
-                                    | None ->
-                                      mk_crash s3 evs (Zpos (Coq_xO (Coq_xI
-                                        Coq_xH))))
-                              else finish s3 evs None false
-                         else finish s3 evs None false
-                       | None ->
-                         mk_crash s3 evs (Zpos (Coq_xO (Coq_xO (Coq_xO
-                           Coq_xH)))))
-                    | None ->
-                      mk_crash s3 evs (Zpos (Coq_xO (Coq_xO (Coq_xO Coq_xH)))))
-                 | TxSFStandby ->
-                   (match s3.tx_standby with
-                    | Some m ->
-                      if Z.leb (zlen m.f_data) allowed
-                      then let s4 =
-                             set (fun l -> l.tx_standby) (fun f ->
-                               let o0 = fun r -> f r.tx_standby in
-                               (fun x -> { now = x.now; rx_state =
-                               x.rx_state; rx_buffer = x.rx_buffer;
-                               rx_frame_length = x.rx_frame_length;
-                               last_seqnum = x.last_seqnum;
-                               rx_block_counter = x.rx_block_counter;
-                               actual_rxdl = x.actual_rxdl; pending_fc =
-                               x.pending_fc; pending_fc_status =
-                               x.pending_fc_status; timer_rx_cf =
-                               x.timer_rx_cf; rx_queue = x.rx_queue;
-                               tx_state = x.tx_state; tx_queue = x.tx_queue;
-                               active = x.active; tx_standby = (o0 x);
-                               last_fc = x.last_fc; remote_bs = x.remote_bs;
-                               tx_block_counter = x.tx_block_counter;
-                               tx_seqnum = x.tx_seqnum; wft_counter =
-                               x.wft_counter; tx_frame_length =
-                               x.tx_frame_length; timer_rx_fc =
-                               x.timer_rx_fc; timer_tx_stmin =
-                               x.timer_tx_stmin; lim_times = x.lim_times;
-                               lim_bits = x.lim_bits; lim_total =
-                               x.lim_total; next_req_id = x.next_req_id }))
-                               (fun _ -> None) s3
-                           in
-                           (match s3.tx_state with
-                            | TxFFStandby ->
-                              finish
-                                (set (fun l -> l.tx_state) (fun f ->
-                                  let t = fun r -> f r.tx_state in
-                                  (fun x -> { now = x.now; rx_state =
-                                  x.rx_state; rx_buffer = x.rx_buffer;
-                                  rx_frame_length = x.rx_frame_length;
-                                  last_seqnum = x.last_seqnum;
-                                  rx_block_counter = x.rx_block_counter;
-                                  actual_rxdl = x.actual_rxdl; pending_fc =
-                                  x.pending_fc; pending_fc_status =
-                                  x.pending_fc_status; timer_rx_cf =
-                                  x.timer_rx_cf; rx_queue = x.rx_queue;
-                                  tx_state = (t x); tx_queue = x.tx_queue;
-                                  active = x.active; tx_standby =
-                                  x.tx_standby; last_fc = x.last_fc;
-                                  remote_bs = x.remote_bs; tx_block_counter =
-                                  x.tx_block_counter; tx_seqnum =
-                                  x.tx_seqnum; wft_counter = x.wft_counter;
-                                  tx_frame_length = x.tx_frame_length;
-                                  timer_rx_fc = x.timer_rx_fc;
-                                  timer_tx_stmin = x.timer_tx_stmin;
-                                  lim_times = x.lim_times; lim_bits =
-                                  x.lim_bits; lim_total = x.lim_total;
-                                  next_req_id = x.next_req_id })) (fun _ ->
-                                  TxWaitFC) (start_rx_fc_timer c s4)) evs
-                                (Some m) false
-                            | _ ->
-                              let (s5, evs5) = stop_sending true s4 in
-                              finish s5 (app evs evs5) (Some m) false)
-                      else finish s3 evs None false
-                    | None -> finish s3 evs None false)
-                 | TxFFStandby ->
-                   (match s3.tx_standby with
-                    | Some m ->
-                      if Z.leb (zlen m.f_data) allowed
-                      then let s4 =
-                             set (fun l -> l.tx_standby) (fun f ->
-                               let o0 = fun r -> f r.tx_standby in
-                               (fun x -> { now = x.now; rx_state =
-                               x.rx_state; rx_buffer = x.rx_buffer;
-                               rx_frame_length = x.rx_frame_length;
-                               last_seqnum = x.last_seqnum;
-                               rx_block_counter = x.rx_block_counter;
-                               actual_rxdl = x.actual_rxdl; pending_fc =
-                               x.pending_fc; pending_fc_status =
-                               x.pending_fc_status; timer_rx_cf =
-                               x.timer_rx_cf; rx_queue = x.rx_queue;
-                               tx_state = x.tx_state; tx_queue = x.tx_queue;
-                               active = x.active; tx_standby = (o0 x);
-                               last_fc = x.last_fc; remote_bs = x.remote_bs;
-                               tx_block_counter = x.tx_block_counter;
-                               tx_seqnum = x.tx_seqnum; wft_counter =
-                               x.wft_counter; tx_frame_length =
-                               x.tx_frame_length; timer_rx_fc =
-                               x.timer_rx_fc; timer_tx_stmin =
-                               x.timer_tx_stmin; lim_times = x.lim_times;
-                               lim_bits = x.lim_bits; lim_total =
-                               x.lim_total; next_req_id = x.next_req_id }))
-                               (fun _ -> None) s3
-                           in
-                           (match s3.tx_state with
-                            | TxFFStandby ->
-                              finish
-                                (set (fun l -> l.tx_state) (fun f ->
-                                  let t = fun r -> f r.tx_state in
-                                  (fun x -> { now = x.now; rx_state =
-                                  x.rx_state; rx_buffer = x.rx_buffer;
-                                  rx_frame_length = x.rx_frame_length;
-                                  last_seqnum = x.last_seqnum;
-                                  rx_block_counter = x.rx_block_counter;
-                                  actual_rxdl = x.actual_rxdl; pending_fc =
-                                  x.pending_fc; pending_fc_status =
-                                  x.pending_fc_status; timer_rx_cf =
-                                  x.timer_rx_cf; rx_queue = x.rx_queue;
-                                  tx_state = (t x); tx_queue = x.tx_queue;
-                                  active = x.active; tx_standby =
-                                  x.tx_standby; last_fc = x.last_fc;
-                                  remote_bs = x.remote_bs; tx_block_counter =
-                                  x.tx_block_counter; tx_seqnum =
-                                  x.tx_seqnum; wft_counter = x.wft_counter;
-                                  tx_frame_length = x.tx_frame_length;
-                                  timer_rx_fc = x.timer_rx_fc;
-                                  timer_tx_stmin = x.timer_tx_stmin;
-                                  lim_times = x.lim_times; lim_bits =
-                                  x.lim_bits; lim_total = x.lim_total;
-                                  next_req_id = x.next_req_id })) (fun _ ->
-                                  TxWaitFC) (start_rx_fc_timer c s4)) evs
-                                (Some m) false
-                            | _ ->
-                              let (s5, evs5) = stop_sending true s4 in
-                              finish s5 (app evs evs5) (Some m) false)
-                      else finish s3 evs None false
-                    | None -> finish s3 evs None false)))
-      | None -> let (s2, evs) = p0 in mk_tr s2 evs None false))
+   | Coq_inr s -> process_tx_main c allowed s)
 
 type stats = { st_received : coq_Z; st_processed : coq_Z; st_sent : coq_Z;
                st_frames : coq_Z }
